@@ -253,19 +253,15 @@ class Machine:
         elif op == "cancel":
             r = self.cur[a]
             head = bool(self.waiting) and min(self.waiting, key=lambda x: x.rank(self.fifo)) is r
+            # the model forgets the request first: cancelling may grant successors before cancel() returns
+            self.waiting.remove(r)
+            r.state = "cancelled"
+            self.past[a].append(r)
+            self.cur[a] = None
+            self.bump("cancel_head" if head and self.waiting else "cancel")
             r.req.cancel()
-            if r.state == "waiting":
-                self.waiting.remove(r)
-                r.state = "cancelled"
-                self.past[a].append(r)
-                self.cur[a] = None
-                self.bump("cancel_head" if head and self.waiting else "cancel")
         elif op == "exit":
             r = self.cur[a]
-            if cmd[2]:
-                r.req.__exit__(ValueError, ValueError("boom"), None)
-            else:
-                r.req.__exit__(None, None, None)
             if r.state == "waiting":
                 self.waiting.remove(r)
                 r.state = "cancelled"
@@ -276,6 +272,10 @@ class Machine:
                 self.bump("with_exit_user" + ("_queue" if self.waiting else ""))
             self.past[a].append(r)
             self.cur[a] = None
+            if cmd[2]:
+                r.req.__exit__(ValueError, ValueError("boom"), None)
+            else:
+                r.req.__exit__(None, None, None)
         elif op == "rel_past":
             r = self.past[a][cmd[2] % len(self.past[a])]
             self.res.release(r.req)
